@@ -14,15 +14,22 @@ def run(ck):
     quick = ck.tier == "quick"
     cloudcheck.run_family(ck, "cloud-race", 320 if quick else 6000, CLAUSE,
                           lambda c: c["features"].get("rejections", 0) >= 1)
+    # directed: a writer between its upload and its swap, a reader of the same parent between its
+    # listing and its decision, a second writer committing in between (random hand-over points)
+    cloudcheck.run_family(ck, "cloud-reader", 160 if quick else 3000, CLAUSE + " [reader between two racing writers]",
+                          lambda c: c["features"].get("rejections", 0) >= 1)
     cloudcheck.theorem_violation(ck, "C09", thm_ok)
     return ck.finish(
         "proof",
         "2-4 clients of the object-store server over the gated in-memory store (hook), listing page size 1-3, a "
         "short sequential prefix, then 1-3 calls per client (add-version on the latest or a stale parent, "
         "get-child-version of chain versions, add-/get-snapshot) advanced one object-store request or list page at "
-        "a time by a seeded scheduler; distinct = different schedules; non-trivial = at least one add-version "
+        "a time by a seeded scheduler; plus directed three-party schedules (two writers racing for one parent and a "
+        "reader of that parent, handed over after 1-3 / 0-2 / all requests); distinct = different schedules; non-trivial = at least one add-version "
         "lost a race or was rejected",
-        "Theorems C09_* hold for every schedule; the correspondence replays each schedule in the model of the "
+        "Theorems C09_* (the invariant CInv of store + clients, preserved by every request, drop and lost reply; one "
+        "child per parent; accepted stays on the chain; served is the chain child with the submitted bytes) hold for "
+        "every schedule; the correspondence replays each schedule in the model of the "
         "request-level machines and compares every request issued (names, compare-and-swap arguments, page "
         "cursors), every result and the final store; the oracle audits accepted/served versions against the "
         "successive values of 'latest'.",
